@@ -1094,7 +1094,7 @@ impl Check for C02 {
     }
 
     fn rule_text(&self) -> String {
-        "one run = one wire image (a corrupted valid packet, then end of stream) read by the real read_packet::<T> for T in 17 reply parsers (15 distinct enums + WriteFileResponse + io::Ack) and 3 PT-role enums covering all 31 shipped command types; faults enumerated over a corpus of richly populated valid frames (25 captures + reference-codec frames of every type): one byte substituted at every offset (thorough: all 256 values; quick: 12 boundary values), truncation at every length with BER/tag prefixes planted at the cut, 0x99 runs at every offset, every body of length <= 2 under each control field of each parser (quick: length <= 1 and boundary pairs), impossible calendar values, APDU length edits, PRNG stacks of these; invariants: no panic (overflow checks on), a result within the poll budget and the 30 s wall-clock watchdog, peak allocation <= 64*len + 160 KiB (64 KiB of which is the largest body an APDU header can announce); distinct = hash of (parser, outcome, fault kind, length, content class)".into()
+        "one run = one wire image (a corrupted valid packet, then end of stream) read by the real read_packet::<T> for T in 17 reply parsers (15 distinct enums + WriteFileResponse + io::Ack) and 3 PT-role enums covering all 31 shipped command types; faults enumerated over a corpus of richly populated valid frames (25 captures + reference-codec frames of every type): one byte substituted at every offset (thorough: all 256 values; quick: 12 boundary values), truncation at every length with BER/tag prefixes planted at the cut, 0x99 runs at every offset, every body of length <= 2 under each control field of each parser (quick: length <= 1 and boundary pairs), impossible calendar values, APDU length edits, PRNG stacks of these; invariants: no panic (overflow checks on), a result within the poll budget and the 180 s wall-clock watchdog, peak allocation <= 64*len + 160 KiB (64 KiB of which is the largest body an APDU header can announce); distinct = hash of (parser, outcome, fault kind, length, content class)".into()
     }
     fn assumptions(&self) -> Vec<String> {
         vec![
